@@ -74,6 +74,11 @@ func genC20(t *simrt.Tape, tier string) Scenario {
 		}
 		sc.Threads = append(sc.Threads, bl)
 	}
+	if t.Bool(1, 4) {
+		// one Call without arguments: fn is invoked again with the arguments so far
+		ti := t.Choose(len(sc.Threads))
+		sc.Threads[ti][t.Choose(len(sc.Threads[ti]))] = 0
+	}
 	switch t.Choose(3) {
 	case 1:
 		sc.DoneInside = 1 + t.Choose(total)
